@@ -288,12 +288,12 @@ Proof.
   intros g. constructor; unfold lock_get, init_lock; cbn; try (intros; contradiction); try constructor; auto.
 Qed.
 
-Theorem build_chk : forall g roots imports st,
-  resolve_pending (build_fuel W) W o
+Theorem build_chk : forall fuel g roots imports st,
+  resolve_pending fuel W o
     (load_imports W o (load_roots W o (init_state W o g) roots) imports) = Some st ->
   ChkInv W st.
 Proof.
-  intros g roots imports st HR.
+  intros fuel g roots imports st HR.
   eapply (resolve_pending_P W o (ChkInv W) chk_ext chk_queue chk_process_core chk_record); [|exact HR].
   apply (load_imports_P W o (ChkInv W) chk_ext chk_queue).
   apply (load_roots_P W o (ChkInv W) chk_ext chk_queue). apply chk_init.
@@ -311,7 +311,7 @@ Proof.
   match type of Hb with context [resolve_pending ?f W o ?st] => destruct (resolve_pending f W o st) as [st'|] eqn:HR end;
     [|discriminate].
   inversion Hb; subst; clear Hb. cbn [bg_calls finish] in Hin. apply in_rev in Hin.
-  exact (ci_calls W st' (build_chk W o g _ _ st' HR) call c Hin Hi).
+  exact (ci_calls W st' (build_chk W o _ g _ _ st' HR) call c Hin Hi).
 Qed.
 
 (* (4) existing lockfile entries are never overwritten and each new entry is recorded once *)
@@ -325,7 +325,7 @@ Proof.
   match type of Hb with context [resolve_pending ?f W o ?st] => destruct (resolve_pending f W o st) as [st'|] eqn:HR end;
     [|discriminate].
   inversion Hb; subst; clear Hb. cbn [bg_lock_sets finish].
-  pose proof (build_chk W o g _ _ st' HR) as HI.
+  pose proof (build_chk W o _ g _ _ st' HR) as HI.
   split; [|split].
   - rewrite map_rev. apply NoDup_rev. exact (ci_sets_nodup W st' HI).
   - intros s h Hin. apply in_rev in Hin. exact (proj1 (ci_sets W st' HI s h Hin)).
@@ -337,7 +337,7 @@ Proof.
     exfalso.
     pose proof (ci_sets W st' HI) as Hs. pose proof (ci_ext W st' HI) as He.
     (* with no initial locker the state's locker stays None: shown by a second, tiny invariant *)
-    clear -HR Hn E. revert HR E. generalize (build_fuel W) as fuel.
+    clear -HR Hn E. match type of HR with resolve_pending ?f _ _ _ = _ => revert HR E; generalize f as fuel end.
     assert (Hinv : forall fuel st st', st_lock st = None -> resolve_pending fuel W o st = Some st' -> st_lock st' = None).
     { apply (fun P ext q pc r => resolve_pending_P W o P ext q pc r).
       - intros st0 st0' _ _ Hl0 _ H0. rewrite Hl0. exact H0.
